@@ -11,7 +11,7 @@ import vtlib
 from checks import synccheck, tracecheck
 
 META = dict(
-    text='TLC exhausts the thread lifecycle protocol (Lifecycle.tla: a creator and 3 workers on 2 vCPUs, joinable and detached, self-migration, migration of READY threads, standby drain, idler work stealing from run queue and standby queue; the context switch split into run-queue step, context save and deferred stack release / migration) for OneRunner, RunsExactlyOnce, JoinExact, StackSafe, OnePlace and Population without stealing and with a stealer that respects unsaved contexts; the pre-repair scan (which could take a READY thread whose context was not saved yet, F9) is kept as a witness that must violate OneRunner. StealLocks.tla checks the lock structure of work stealing (own run-queue lock, vCPU-list lock, victim standby lock, asymmetric run-queue lock from the background side) for deadlock freedom, run-queue exclusion and termination; the pre-repair structure is kept as a witness. Recorded executions of the real runtime (2-7 threads per execution created joinable / detached / stealable / from a thread pool on 3 vCPUs with random work-stealing flags, yielding, sleeping, migrating themselves, being migrated, interrupted and joined in random order; default and pooled stack allocator behind a recording allocator) are validated by TLC against the lifecycle contract: one Enter and one Leave per thread, compute segments of a thread never overlap and end on the vCPU they began on, join returns once after Leave with the value, stacks released once and only after Leave (joinable: not before join was called), thread counts back to initial.',
+    text='TLC exhausts the thread lifecycle protocol (Lifecycle.tla: a creator and 3 workers on 2 vCPUs, joinable and detached, self-migration, migration of READY threads, standby drain, idler work stealing from run queue and standby queue; the context switch split into run-queue step, context save and deferred stack release / migration) for OneRunner, RunsExactlyOnce, JoinExact, StackSafe, OnePlace and Population without stealing and with a stealer that respects unsaved contexts; the pre-repair scan (which could take a READY thread whose context was not saved yet, F9) is kept as a witness that must violate OneRunner. StealLocks.tla checks the lock structure of work stealing (own run-queue lock, vCPU-list lock, victim standby lock, asymmetric run-queue lock from the background side) for deadlock freedom, run-queue exclusion and termination; the pre-repair structure is kept as a witness. Recorded executions of the real runtime (2-7 threads per execution created joinable / detached / stealable / from a thread pool on 3 vCPUs with random work-stealing flags, yielding, sleeping, migrating themselves, being migrated, interrupted and joined in random order; default and pooled stack allocator behind a recording allocator) are validated by TLC against the lifecycle contract: one Enter and one Leave per thread, compute segments of a thread never overlap and end on the vCPU they began on, join returns once after Leave with the value, stacks released once and only after Leave (joinable: not before join was called), thread counts back to initial. Directed scenarios with hook data: a vCPU held before the context switch of a yielding stealable thread (steal9), join racing die() (joinrace), stealing from a stand-by queue that holds an interrupted sleeper behind a migrated thread (stealsb: a stolen thread is in no sleep queue).',
     note='The directed scenario (vCPU held by a guarded hook between leaving the run-queue lock and saving the context while another vCPU steals) reproduces F9 deterministically if the guard is removed. Memory-ordering of the asymmetric run-queue lock is outside the SC specification (see F10 in DESIGN.md).',
     technique='TLA+ protocol models checked exhaustively by TLC; TLC trace validation of recorded lifecycle executions; hook-gated directed scenario for the recorded finding',
     design='3/C05')
